@@ -154,6 +154,7 @@ def configs(tier):
     add(kind="sram_ro", lanes=2, words=2, init="alt")
     add(kind="sram", lanes=1, words=4, init="idx")
     add(kind="down", lanes=2, words=2, ratio=2, init="alt")
+    add(kind="down", lanes=4, words=1, ratio=4, init="alt")
     add(kind="up", lanes=1, words=4, ratio=2, init="idx")
     add(kind="chain", lanes=1, words=4, init="idx")
     add(kind="remap", lanes=1, words=2, backing_bytes=8, origin=4, size=2, init="idx")
